@@ -7,6 +7,8 @@
 
 mod alloc;
 mod canon;
+mod games;
+mod gen_games;
 mod master;
 mod net;
 mod reader;
@@ -28,6 +30,7 @@ fn entries() -> Vec<(&'static str, EntryFn)> {
     v.extend(valve::entries());
     v.extend(master::entries());
     v.extend(settings::entries());
+    v.extend(games::entries());
     v
 }
 
